@@ -610,7 +610,7 @@ pub mod authenticator {
         //@   rule R19
         //@   rule R20
         //@   rule R6
-        //@   rule R14 check_user
+        //@   rule R14 check_user choose_algorithm
         //@   rule R16
     }
     mod get_assertion {
